@@ -199,26 +199,35 @@ structure Reqs where
 
 /-! ### reward pool (reward.go) -/
 
+/-- the reward scheduled for an execution block at `height`: initial reward halved once per elapsed
+    halving interval -/
+def scheduledReward (p : Params) (height : Int) : Int :=
+  let halvings := height / p.halvingInterval
+  if halvings > 0 then p.initialReward / (2 ^ halvings.toNat : Nat) else p.initialReward
+
+/-- move `min(remaining grant, scheduled)` from the grant into the distribution pool -/
+def emit (pool : Pool) (sched : Int) : Pool :=
+  let reward := if sched > pool.remain then pool.remain else sched
+  if reward ≠ 0 then { pool with goat := pool.goat + reward, remain := pool.remain - reward } else pool
+
+/-- gas revenue (positive amounts only) and grants; `none` models the 256-bit overflow panic -/
+def addIncome (pool : Pool) (gas grants : List Int) : Option Pool :=
+  let g := gas.foldl (fun (acc : Int) x => if x > 0 then acc + x else acc) pool.gas
+  if !fits256 g then none
+  else
+    (grants.foldl (fun (acc : Option Int) x =>
+      match acc with
+      | none => none
+      | some r => if fits256 (r + x) then some (r + x) else none) (some pool.remain)).map
+      (fun remain => { pool with gas := g, remain := remain })
+
 def updateRewardPool (s : State) (height : Int) (gas grants : List Int) : Outcome State :=
   if gas.length ≠ 1 then .err "gas-length"
-  else
-    let g := gas.foldl (fun (acc : Int) x => if x > 0 then acc + x else acc) s.pool.gas
-    if !fits256 g then .panic "int-overflow"
-    else
-      let rOut := grants.foldl (fun (acc : Option Int) x =>
-        match acc with
-        | none => none
-        | some r => if fits256 (r + x) then some (r + x) else none) (some s.pool.remain)
-      match rOut with
-      | none => .panic "int-overflow"
-      | some remain =>
-        let halvings := height / s.params.halvingInterval
-        let reward0 : Int := if halvings > 0 then s.params.initialReward / (2 ^ halvings.toNat : Nat) else s.params.initialReward
-        let reward := if reward0 > remain then remain else reward0
-        let pool := if reward ≠ 0 then { goat := s.pool.goat + reward, gas := g, remain := remain - reward }
-                    else { goat := s.pool.goat, gas := g, remain := remain }
-        if !fits256 pool.goat then .panic "int-overflow"
-        else .ok { s with pool := pool }
+  else match addIncome s.pool gas grants with
+  | none => .panic "int-overflow"
+  | some p1 =>
+    let p2 := emit p1 (scheduledReward s.params height)
+    if !fits256 p2.goat then .panic "int-overflow" else .ok { s with pool := p2 }
 
 structure VoteInfo where
   address : Bytes
@@ -443,7 +452,26 @@ def lock (s : State) (now : Int) (reqs : List LockReq) : Outcome State :=
 
 /-! ### unlock (msg_unlock.go) -/
 
-def unlockOne (s : State) (now : Int) (r : UnlockReq) : Outcome State :=
+/-- amount actually released by an unlock request: clipped to the holding -/
+def unlockAmount (held requested : Int) : Int := if held < requested then held else requested
+
+/-- a validator is exiting when already inactive/tombstoned or when the holding drops below the
+    token's threshold -/
+def exitingOf (st : Status) (left threshold : Int) : Bool :=
+  st == .inactive || st == .tombstoned || left < threshold
+
+/-- maturity of the unlock: block time + exit or unlock period -/
+def unlockTime (p : Params) (now : Int) (exiting : Bool) : Int :=
+  if exiting then now + p.exitingDuration else now + p.unlockDuration
+
+/-- append an unlock to the time-keyed queue -/
+def enqueueUnlock (s : State) (t : Int) (u : Unlock) : State :=
+  { s with unlockQueue :=
+      if s.unlockQueue.any (·.1 == t) then s.unlockQueue.map (fun e => if e.1 == t then (t, e.2 ++ [u]) else e)
+      else s.unlockQueue ++ [(t, [u])] }
+
+/-- everything `unlock` does except the enqueue: power, status, indices, holding -/
+def unlockCore (s : State) (r : UnlockReq) : Outcome (State × Bool × Int) :=
   match vget s r.validator with
   | none => .err "not-found"
   | some v =>
@@ -452,12 +480,12 @@ def unlockOne (s : State) (now : Int) (r : UnlockReq) : Outcome State :=
     | none => .err "not-found"
     | some tok =>
       let held := amountOf v.locking r.token
-      let amount := if held < r.amount then held else r.amount
+      let amount := unlockAmount held r.amount
       if amount < 0 then .panic "negative-coin"
       else
       let updated := setAmount v.locking r.token (held - amount)
       let left := held - amount
-      let exiting := v.status == .inactive || v.status == .tombstoned || left < tok.threshold
+      let exiting := exitingOf v.status left tok.threshold
       let pw : Outcome Nat :=
         if amount ≠ 0 ∧ tok.weight > 0 ∧ !exiting ∧ (v.status == .active || v.status == .pending) then
           match powerOf tok.weight amount with
@@ -470,35 +498,42 @@ def unlockOne (s : State) (now : Int) (r : UnlockReq) : Outcome State :=
       | .err e => .err e
       | .panic e => .panic e
       | .ok pw =>
-        let (s2, v2, t) :=
+        let (s2, v2) :=
           if exiting then
             let st := match v.status with
               | .active | .pending | .downgrade => Status.inactive
               | x => x
             let s2 := v.locking.foldl (fun s c => idxRemove s c.1 r.validator) s1
-            (s2, { v with power := 0, status := st }, now + s.params.exitingDuration)
+            (s2, { v with power := 0, status := st })
           else
             let v2 := { v with power := pw }
             if v.status == .active || v.status == .pending then
               let s2 := if left = 0 then idxRemove s1 r.token r.validator else idxSet s1 r.token r.validator left
               let s3 := if pw > 0 then rankSet s2 pw r.validator else s2
-              (s3, v2, now + s.params.unlockDuration)
-            else (s1, v2, now + s.params.unlockDuration)
-        let s3 := vset s2 r.validator { v2 with locking := updated }
-        let u : Unlock := { id := r.id, token := r.tokenAddr, recipient := r.recipient, amount := amount }
-        let q := if s3.unlockQueue.any (·.1 == t) then s3.unlockQueue.map (fun e => if e.1 == t then (t, e.2 ++ [u]) else e)
-                 else s3.unlockQueue ++ [(t, [u])]
-        .ok { s3 with unlockQueue := q }
+              (s3, v2)
+            else (s1, v2)
+        .ok (vset s2 r.validator { v2 with locking := updated }, exiting, amount)
+
+def unlockOne (s : State) (now : Int) (r : UnlockReq) : Outcome State :=
+  match unlockCore s r with
+  | .err e => .err e
+  | .panic e => .panic e
+  | .ok (s3, exiting, amount) =>
+    .ok (enqueueUnlock s3 (unlockTime s.params now exiting)
+      { id := r.id, token := r.tokenAddr, recipient := r.recipient, amount := amount })
 
 def unlock (s : State) (now : Int) (reqs : List UnlockReq) : Outcome State :=
   reqs.foldlM (fun s r => unlockOne s now r) s
 
+/-- time-queue entries with key ≤ now, in key order -/
+def dueUnlocks (s : State) (now : Int) : List (Int × List Unlock) :=
+  (s.unlockQueue.filter (·.1 ≤ now)).mergeSort (fun a b => a.1 ≤ b.1)
+
 /-- DequeueMatureUnlocks: entries with key ≤ now, in key order -/
 def dequeueMature (s : State) (now : Int) : State :=
-  let due := (s.unlockQueue.filter (·.1 ≤ now)).mergeSort (fun a b => a.1 ≤ b.1)
-  if due.isEmpty then s
+  if (dueUnlocks s now).isEmpty then s
   else { s with unlockQueue := s.unlockQueue.filter (fun e => !(e.1 ≤ now)),
-                qUnlocks := s.qUnlocks ++ (due.map (·.2)).flatten }
+                qUnlocks := s.qUnlocks ++ ((dueUnlocks s now).map (·.2)).flatten }
 
 /-- ProcessLockingRequest -/
 def processRequests (hash160 : Bytes → Bytes) (hasAccount : Bytes → Bool) (s : State) (height now : Int) (r : Reqs) :
@@ -513,14 +548,16 @@ def processRequests (hash160 : Bytes → Bytes) (hasAccount : Bytes → Bool) (s
 
 /-! ### slashing, votes, evidence -/
 
-/-- slash every held coin by `frac`; returns (remaining coins, state with `slashed` and index updated) -/
+/-- one coin of a slash: drop its index entry, book the slashed part, keep the rest -/
+def slashStep (addr : Bytes) (frac : Nat) (acc : State × Coins) (c : String × Int) : State × Coins :=
+  let s := idxRemove acc.1 c.1 addr
+  let a0 : Int := slashAmount c.2.toNat frac
+  if a0 = 0 then (slashedAdd s c.1 c.2, acc.2)
+  else (slashedAdd s c.1 a0, addCoin acc.2 c.1 (c.2 - a0))
+
+/-- slash every held coin by `frac`; returns (state with `slashed` and index updated, remaining coins) -/
 def slashAll (s : State) (addr : Bytes) (v : Validator) (frac : Nat) : State × Coins :=
-  v.locking.foldl (fun (acc : State × Coins) c =>
-    let (s, upd) := acc
-    let s := idxRemove s c.1 addr
-    let a0 : Int := slashAmount c.2.toNat frac
-    if a0 = 0 then (slashedAdd s c.1 c.2, upd)
-    else (slashedAdd s c.1 a0, addCoin upd c.1 (c.2 - a0))) (s, [])
+  v.locking.foldl (slashStep addr frac) (s, [])
 
 def handleVote (s : State) (now : Int) (vi : VoteInfo) : Outcome State :=
   match vget s vi.address with
@@ -549,14 +586,17 @@ structure Evidence where
   time : Int
   deriving Repr, Inhabited
 
+/-- evidence is ignored only when it is older than *both* age limits of the consensus parameters -/
+def isStale (now height : Int) (maxAge : Option (Int × Int)) (e : Evidence) : Bool :=
+  match maxAge with
+  | some (d, b) => decide (now - e.time > d) && decide (height - e.height > b)
+  | none => false
+
 /-- `maxAge`: consensus evidence params (duration ns, blocks) or none -/
 def handleEvidence (s : State) (now height : Int) (maxAge : Option (Int × Int)) (e : Evidence) : Outcome State :=
   if e.kind ≠ 1 ∧ e.kind ≠ 2 then .ok s
   else
-    let stale : Bool := match maxAge with
-      | some (d, b) => decide (now - e.time > d) && decide (height - e.height > b)
-      | none => false
-    if stale then .ok s
+    if isStale now height maxAge e then .ok s
     else match vget s e.address with
     | none => .err "not-found"
     | some v =>
